@@ -32,6 +32,7 @@ def rules(ctx):
     c134(ctx)
     c135(ctx)
     c136(ctx)
+    c137(ctx)
 
 
 def c13_open_options(ctx):
@@ -156,6 +157,26 @@ def c132(ctx):
                       "fcntl is issued without holding the lock-table mutex", pt=pt)
         push = ctx.calls(R, g, r"alloc::vec::Vec::push$")
         ctx.order_chain(R, g, [("fcntl", fc), ("lock_table.push", push)])
+        # closing ANY descriptor of a file drops every fcntl lock the process holds on it: once the lock file has been opened, _lock
+        # either goes on to take the lock or fails with an error -- the refusal `this process already holds it` (decided by comparing
+        # device and inode with the table) is taken before a descriptor exists
+        op = ctx.calls(R, g, r"std::fs::OpenOptions::open$")
+        refusals = []
+        for r_ in P.ok_points(g):
+            for cg in K.compare_guards(g, r_, user_only=False):
+                if cg["op"] == "Eq" and cg["holds"] and any(
+                        s_["k"] == "call" and re.search(r"::(dev|ino)$", s_["callee"]) for o_ in (cg["a"], cg["b"]) for s_ in P.origins(g, o_)):
+                    refusals.append(r_)
+                    break
+        ctx.floor(R, "_lock: refusals decided by the in-process table", len(refusals), 1)
+        for r_ in refusals:
+            q = None
+            for o_ in op:
+                q = q or P.reach(g, P.after(g, o_), [r_])
+            ctx.check(R, g, "refusal-opens-nothing", q is None, "the table is consulted before the lock file is opened",
+                      "Lockfile::_lock opens the lock file and only then finds in its table that this process already holds the lock; returning "
+                      "closes the new descriptor, which releases the fcntl lock the live Lockfile relies on -- another process can then lock the "
+                      "same manifest", pt=r_, path=q)
 
 
 MANI_FILE_OPS = r"^std::fs::(remove_file|rename|hard_link|remove_dir|remove_dir_all|write|copy)$|^std::fs::File::create$|^std::fs::OpenOptions::open$|^std::fs::File::set_len$"
@@ -288,3 +309,85 @@ def c134(ctx):
     bexc = {k: v for k, v in BOUNDS_EXC.items() if k[0].startswith("mani::") or k[0].startswith("<mani::")}
     nb, pb = K.bounds_audit(ctx, R + "b", fns, bexc)
     ctx.floor(R + "b", "index / slice sites in mani", nb, 6)
+
+
+# ------------------------------------------------------------------------------------------------
+# C13.7 what the writer accepts, the reader reads back: the two sides agree on the alphabet of a line
+
+def c137(ctx):
+    R = "C13.7"
+    ctx.declare(R, "every line Manifest::apply can write is a line ManifestIterator::next reads back as the same operation: the shortest line is "
+                   "admitted, and whatever the reader rejects or re-interprets (non-ASCII text, a trailing carriage return, the action characters "
+                   "as info keys) the Edit refuses")
+    rd = ctx.fn(R, "<mani::ManifestIterator as core::iter::traits::iterator::Iterator>::next")
+    cs = ctx.fn(R, "mani::Edit::check_str")
+    inf = ctx.fn(R, "mani::Edit::info")
+    if not (rd and cs and inf):
+        return
+    # (a) shortest line: 8 hex digits + the action character + an empty payload = 9 characters
+    lens = []
+    for b in rd.blocks:
+        for i, st in enumerate(b.st):
+            if st["s"] == "=" and st["rv"]["r"] == "bin" and st["rv"]["op"] in ("Gt", "Ge", "Lt", "Le") and not st["sp"][3]:
+                a, c = st["rv"]["a"], st["rv"]["b"]
+                if any(x["k"] == "call" and x["callee"].endswith("String::len") for x in P.origins(rd, a)) and c.get("k") == "const" and "v" in c["c"]:
+                    lens.append(((b.idx, i), st["rv"]["op"], c["c"]["v"]))
+    ctx.floor(R, "reader length gates", len(lens), 1)
+    for pt, op, v in lens:
+        admits9 = (op == "Gt" and v <= 8) or (op == "Ge" and v <= 9)
+        ctx.check(R, rd, "shortest-line-admitted", admits9, "a 9-character line (checksum, action, empty payload) is parsed",
+                  "the reader takes a line only if len %s %d: the line the writer produces for an empty string or an empty info value (8 checksum "
+                  "digits + the action character) is rejected as corrupt on the next open" % ({"Gt": ">", "Ge": ">="}.get(op, op), v), pt=pt)
+    # (b) the reader insists on ASCII and reads with lines(): the writer must refuse non-ASCII text and a trailing CR
+    reader_ascii = bool(P.call_points(rd, r"str>::is_ascii$|::is_ascii$"))
+    if reader_ascii:
+        w = [p_ for p_ in P.call_points(cs, r"::is_ascii$")]
+        gated = False
+        for p_ in w:
+            # an error exit on the edge where is_ascii is false
+            for b in P.switch_blocks(cs):
+                srcs = P.switch_cond_sources(cs, b.idx)
+                if any(x["k"] == "call" and x["pt"] == p_ for x in srcs):
+                    gated = True
+        ctx.check(R, cs, "writer-refuses-non-ascii", gated, "Edit::check_str refuses non-ASCII text, which the reader would reject",
+                  "the reader rejects any non-ASCII line, but Edit::check_str accepts non-ASCII strings: apply acknowledges the edit and the manifest "
+                  "cannot be opened again")
+    lines_reader = bool(P.call_points(rd, r"BufRead::lines$|::lines$"))
+    if lines_reader:
+        chars = set()
+        for g in [cs] + [h for h in ctx.prog.fns.values() if h.skey.startswith("mani::Edit::check_str::{closure")]:
+            for b in g.blocks:
+                for st in b.st:
+                    if st["s"] == "=" and st["rv"]["r"] == "bin" and st["rv"]["op"] in ("Eq", "Ne"):
+                        for o in (st["rv"]["a"], st["rv"]["b"]):
+                            if o.get("k") == "const" and o["c"].get("ty") == "char" and "v" in o["c"]:
+                                chars.add(o["c"]["v"])
+            for _b, t in g.calls():
+                if re.search(r"::(ends_with|contains|strip_suffix)$", callee_skey(t) or ""):
+                    for o in t["args"][1:]:
+                        if o.get("k") == "const" and o["c"].get("ty") == "char" and "v" in o["c"]:
+                            chars.add(o["c"]["v"])
+        ctx.check(R, cs, "writer-refuses-line-terminators", 10 in chars and 13 in chars,
+                  "Edit::check_str looks for both characters BufRead::lines() strips (\\n and a trailing \\r)",
+                  "the reader splits with lines(), which also strips a trailing carriage return, but Edit::check_str only looks for %s: a string "
+                  "ending in \\r is written, read back one character short, and fails its checksum on the next open" % sorted(chars))
+    # (c) the action characters the reader dispatches on cannot be info keys
+    actions = set()
+    for b in rd.blocks:
+        for st in b.st:
+            if st["s"] == "=" and st["rv"]["r"] == "bin" and st["rv"]["op"] == "Eq":
+                o = st["rv"]["b"]
+                if o.get("k") == "const" and o["c"].get("ty") == "char" and o["c"].get("v") in (43, 45):
+                    actions.add(o["c"]["v"])
+    refused = set()
+    for b in inf.blocks:
+        for st in b.st:
+            if st["s"] == "=" and st["rv"]["r"] == "bin" and st["rv"]["op"] in ("Eq", "Ne"):
+                o = st["rv"]["b"]
+                if o.get("k") == "const" and o["c"].get("ty") == "char" and any(x["k"] == "param" and x["i"] == 2 for x in P.origins(inf, st["rv"]["a"])):
+                    refused.add(o["c"]["v"])
+    ctx.floor(R, "reader action characters", len(actions), 2)
+    ctx.check(R, inf, "action-characters-not-info-keys", actions <= refused,
+              "Edit::info refuses the keys %s, which the reader dispatches on as add / remove" % sorted(chr(c) for c in actions),
+              "Edit::info accepts the key %s, which the reader takes for an add / remove: the info is written and read back as a change to the string "
+              "set" % sorted(chr(c) for c in actions - refused))
